@@ -172,21 +172,43 @@ func (c19) Run(c *Ctx, i int) CaseResult {
 		}
 	}
 	res.Features = append(res.Features, fmt.Sprintf("middleware-options-%d", len(mwOpts)))
+	// a third of the gateways cache their plans, and the request observed is the SECOND use of its plan (what a cache
+	// hit hands out is scrubbed and passed through the middlewares like a plan just computed)
+	cachedPlans := r.Intn(3) == 0
+	if cachedPlans {
+		mwOpts = append(mwOpts, gateway.WithAutomaticQueryPlanCache())
+	}
+	res.Features = append(res.Features, fmt.Sprintf("cached-plan:%v", cachedPlans))
 	fed, err = NewFed(spec, store, append(mwOpts, gateway.WithQueryerFactory(&factory))...)
 	if err != nil {
 		res.Fails = append(res.Fails, Failure{Channel: "harness", Classifier: "harness-error", What: err.Error()})
 		return res
 	}
+	warmCalls := 0
+	if cachedPlans {
+		fed.CacheKey = shaHex(query) // requests without a key are never answered from the cache
+		runWith(fed, FedInput{Spec: spec, StoreSeed: 5, Query: query}, 8*time.Second)
+		warmCalls = fed.TotalCalls()
+		log.mu.Lock()
+		log.PerCall, log.Resp, log.Seen = nil, nil, nil
+		log.mu.Unlock()
+	}
 	var fl *FaultLog
 	switch fault {
 	case "dependent":
-		fl = InstallFaults(fed, []FaultSpec{{Service: "B", From: 0, Count: 1, Kind: "transport"}, {Service: "C", From: 0, Count: 1, Kind: "transport"}}, 0)
+		from := func(url string) int {
+			if s, ok := fed.ByURL[url]; ok {
+				return len(s.Calls())
+			}
+			return 0
+		}
+		fl = InstallFaults(fed, []FaultSpec{{Service: "B", From: from("B"), Count: 1, Kind: "transport"}, {Service: "C", From: from("C"), Count: 1, Kind: "transport"}}, 0)
 	case "root":
 		fl = InstallFaults(fed, []FaultSpec{{Service: "A", MatchID: "root", Kind: "transport"}}, 0)
 	}
 	in := FedInput{Spec: spec, StoreSeed: 5, Query: query}
 	out := runWith(fed, in, 8*time.Second)
-	cfg := map[string]interface{}{"response_middlewares": respOrder, "request_middlewares": reqOrder, "failing": failAt, "query": query, "fault": fault}
+	cfg := map[string]interface{}{"response_middlewares": respOrder, "request_middlewares": reqOrder, "failing": failAt, "query": query, "fault": fault, "second_use_of_a_cached_plan": cachedPlans}
 	bad := func(channel, what string, exp, obs interface{}) {
 		res.Fails = append(res.Fails, Failure{Channel: channel, Classifier: "unclassified", What: what, Input: cfg, Expected: exp, Observed: obs})
 	}
@@ -258,7 +280,7 @@ func (c19) Run(c *Ctx, i int) CaseResult {
 		}
 	}
 	// request middlewares on every outbound call
-	calls := fed.TotalCalls()
+	calls := fed.TotalCalls() - warmCalls
 	if len(log.PerCall) != calls {
 		bad("L0.request-mw", fmt.Sprintf("%d outbound calls, %d went through the middleware-aware queryer", calls, len(log.PerCall)), nil, nil)
 	}
